@@ -176,6 +176,8 @@ func c23RootFiles() map[string]string {
 var c23Outside = []string{"a", "aa/a", "a.a", "h/a", "aaa", "aa/index.html", "index.html", ".a"}
 
 type c23Env struct {
+	cwd, oldwd        string // the process runs in an empty temporary working directory
+	outside           string // snapshot of everything under the temp dir except Root and CompressRoot
 	base, root, zroot string
 	opened            []string // default filesystem: paths reported by the hooks
 	created           []string
@@ -251,11 +253,65 @@ func c23Setup(t *testing.T) *c23Env {
 		delete(m.files, d)
 	}
 	e.mem = m
+	e.cwd = filepath.Join(filepath.Dir(base), "cwd")
+	if err := os.MkdirAll(e.cwd, 0o755); err != nil {
+		t.Fatalf("mkdir: %v", err)
+	}
+	e.oldwd, _ = os.Getwd()
+	if err := os.Chdir(e.cwd); err != nil {
+		t.Fatalf("chdir: %v", err)
+	}
+	e.outside = e.snapshot()
 	return e
 }
 
-func (e *c23Env) handler(c *c23Case, mode string, compress bool) RequestHandler {
-	key := fmt.Sprintf("%s%d/%s/%v", c.RW, c.N, mode, compress)
+// snapshot lists (name, type, size) of everything below the temporary directory that is NOT inside
+// Root or CompressRoot: the sentinels, Root's siblings (<Root>.fasthttp.gz) and the (empty)
+// working directory.  The handlers must never change it.
+func (e *c23Env) snapshot() string {
+	var sb strings.Builder
+	_ = filepath.WalkDir(filepath.Dir(e.base), func(p string, d fs.DirEntry, err error) error {
+		if err != nil {
+			return nil
+		}
+		if d.IsDir() && (p == e.root || p == e.zroot) {
+			return filepath.SkipDir
+		}
+		var size int64
+		if fi, err := d.Info(); err == nil && !d.IsDir() {
+			size = fi.Size()
+		}
+		fmt.Fprintf(&sb, "%s %v %d\n", p, d.IsDir(), size)
+		return nil
+	})
+	return sb.String()
+}
+
+func c23Diff(before, after string) []string {
+	seen := map[string]bool{}
+	for _, l := range strings.Split(before, "\n") {
+		seen[l] = true
+	}
+	var out []string
+	for _, l := range strings.Split(after, "\n") {
+		if !seen[l] {
+			out = append(out, "+ "+l)
+		}
+		delete(seen, l)
+	}
+	for l := range seen {
+		out = append(out, "- "+l)
+	}
+	sort.Strings(out)
+	return out
+}
+
+// zmode: "off" no compression; "zroot" compression with CompressRoot base/z (default filesystem) /
+// in-memory copies (fs.FS); "inroot" compression with CompressRoot unset: the copies belong next
+// to the originals inside Root (default filesystem only).
+func (e *c23Env) handler(c *c23Case, mode string, zmode string) RequestHandler {
+	compress := zmode != "off"
+	key := fmt.Sprintf("%s%d/%s/%s", c.RW, c.N, mode, zmode)
 	if h, ok := e.handlers[key]; ok {
 		return h
 	}
@@ -271,7 +327,7 @@ func (e *c23Env) handler(c *c23Case, mode string, compress bool) RequestHandler 
 	}
 	if mode == "os" {
 		f.Root = e.root
-		if compress {
+		if zmode == "zroot" {
 			f.CompressRoot = e.zroot
 		}
 	} else {
@@ -319,6 +375,7 @@ func TestVerifC23FSPath(t *testing.T) {
 	rng := vfRand()
 	e := c23Setup(t)
 	defer os.RemoveAll(filepath.Dir(e.base))
+	defer os.Chdir(e.oldwd) //nolint:errcheck
 	VerifHook = func(ev string, o1, o2 any, a, b int) {
 		switch ev {
 		case "fs.open":
@@ -333,7 +390,7 @@ func TestVerifC23FSPath(t *testing.T) {
 	verdicts := map[string]int{}
 	var live []c23Vec
 	liveEvery := vfEnvInt("VERIF_C23_LIVE_EVERY", 25)
-	viol := func(kind, mode string, compress bool, c *c23Case, in string, detail string, extra vfRec) {
+	viol := func(kind, mode string, compress string, c *c23Case, in string, detail string, extra vfRec) {
 		extra["in"] = in
 		extra["rewriter"] = fmt.Sprintf("%s(%d)", c.RW, c.N)
 		extra["host"] = c23Hosts[c.Host]
@@ -359,8 +416,12 @@ func TestVerifC23FSPath(t *testing.T) {
 			p := c23Bytes(c.P)
 			rel := string(c23Bytes(c.Rel))
 			for _, mode := range []string{"os", "mem"} {
-				for _, compress := range []bool{false, true} {
-					h := e.handler(c, mode, compress)
+				for _, zmode := range []string{"off", "zroot", "inroot"} {
+					if zmode == "inroot" && mode != "os" {
+						continue
+					}
+					compress := zmode != "off"
+					h := e.handler(c, mode, zmode)
 					var req Request
 					var ctx RequestCtx
 					req.SetRequestURI(in)
@@ -372,7 +433,7 @@ func TestVerifC23FSPath(t *testing.T) {
 					e.opened, e.created, e.memLog = e.opened[:0], e.created[:0], e.memLog[:0]
 					if pv := c23Call(h, &ctx); pv != nil {
 						// neither served nor rejected: the reference allows no third outcome
-						viol("panic", mode, compress, c, in, fmt.Sprintf("target %q rewritten to %q: the handler panicked: %v", in, p, pv), vfRec{})
+						viol("panic", mode, zmode, c, in, fmt.Sprintf("target %q rewritten to %q: the handler panicked: %v", in, p, pv), vfRec{})
 						continue
 					}
 					status := ctx.Response.StatusCode()
@@ -384,6 +445,14 @@ func TestVerifC23FSPath(t *testing.T) {
 					}
 					evals++
 					verdicts[c.Verdict]++
+					// (0) nothing appears in the (empty) working directory
+					if ents, err := os.ReadDir(e.cwd); err == nil && len(ents) > 0 {
+						viol("outside-change", mode, zmode, c, in, fmt.Sprintf("target %q: the handler created %q in the working directory %q (outside Root and CompressRoot)",
+							in, ents[0].Name(), e.cwd), vfRec{"status": status})
+						for _, en := range ents {
+							_ = os.RemoveAll(filepath.Join(e.cwd, en.Name()))
+						}
+					}
 					if c.RW != "none" || strings.ContainsAny(in, ".%\\") {
 						nontriv++
 					}
@@ -392,15 +461,15 @@ func TestVerifC23FSPath(t *testing.T) {
 					if mode == "os" {
 						touched = append(append(touched, e.opened...), e.created...)
 						for _, o := range e.opened {
-							if !c23InsideOS(o, e.root, map[bool]string{true: e.zroot}[compress]) {
-								viol("escape", mode, compress, c, in, fmt.Sprintf("target %q: the handler opened %q, outside Root %q", in, o, e.root),
+							if !c23InsideOS(o, e.root, map[bool]string{true: e.zroot}[zmode == "zroot"]) {
+								viol("escape", mode, zmode, c, in, fmt.Sprintf("target %q: the handler opened %q, outside Root %q", in, o, e.root),
 									vfRec{"opened": touched, "status": status})
 								break
 							}
 						}
 						for _, o := range e.created {
-							if !c23InsideOS(o, e.root, e.zroot) {
-								viol("escape-create", mode, compress, c, in, fmt.Sprintf("target %q: the handler created/removed %q, outside Root/CompressRoot", in, o),
+							if !c23InsideOS(o, e.root, map[bool]string{true: e.zroot}[zmode == "zroot"]) {
+								viol("escape-create", mode, zmode, c, in, fmt.Sprintf("target %q: the handler created/removed %q, outside Root/CompressRoot", in, o),
 									vfRec{"opened": touched, "status": status})
 								break
 							}
@@ -409,7 +478,7 @@ func TestVerifC23FSPath(t *testing.T) {
 						touched = append(touched, e.memLog...)
 						for _, o := range e.memLog {
 							if !c23InsideMem(o, "r") {
-								viol("escape", mode, compress, c, in, fmt.Sprintf("target %q: the handler opened %q of the fs.FS, outside Root \"r\"", in, o),
+								viol("escape", mode, zmode, c, in, fmt.Sprintf("target %q: the handler opened %q of the fs.FS, outside Root \"r\"", in, o),
 									vfRec{"opened": touched, "status": status})
 								break
 							}
@@ -417,7 +486,7 @@ func TestVerifC23FSPath(t *testing.T) {
 					}
 					// (2) the sentinel never reaches a client
 					if bytes.Contains(body, []byte(c23Sentinel)) {
-						viol("sentinel", mode, compress, c, in, fmt.Sprintf("target %q: status %d and the body is the sentinel file outside Root", in, status),
+						viol("sentinel", mode, zmode, c, in, fmt.Sprintf("target %q: status %d and the body is the sentinel file outside Root", in, status),
 							vfRec{"opened": touched, "status": status})
 					}
 					if !c.Exact {
@@ -428,7 +497,7 @@ func TestVerifC23FSPath(t *testing.T) {
 					case "rej400", "rej500":
 						want := map[string]int{"rej400": StatusBadRequest, "rej500": StatusInternalServerError}[c.Verdict]
 						if status != want || len(touched) > 0 {
-							viol("verdict", mode, compress, c, in, fmt.Sprintf("target %q rewritten to %q must be rejected with %d without touching the file system; got status %d, touched %q",
+							viol("verdict", mode, zmode, c, in, fmt.Sprintf("target %q rewritten to %q must be rejected with %d without touching the file system; got status %d, touched %q",
 								in, p, want, status, touched), vfRec{"opened": touched, "status": status, "want": c.Verdict})
 						}
 					case "open":
@@ -446,12 +515,18 @@ func TestVerifC23FSPath(t *testing.T) {
 							found = found || o == want || (compress && o == want+FSCompressedFileSuffix)
 						}
 						if !found || status == StatusBadRequest || status == StatusInternalServerError {
-							viol("path", mode, compress, c, in, fmt.Sprintf("target %q rewritten to %q must open %q; got status %d, touched %q",
+							viol("path", mode, zmode, c, in, fmt.Sprintf("target %q rewritten to %q must open %q; got status %d, touched %q",
 								in, p, want, status, touched), vfRec{"opened": touched, "status": status, "want": want})
 						}
 					}
 				}
 			}
+		}
+		// nothing outside Root / CompressRoot was created, removed or resized by this vector
+		if now := e.snapshot(); now != e.outside {
+			vfViol(fmt.Sprintf("outside-change:%q", in), fmt.Sprintf("target %q: files outside Root and CompressRoot changed: %v", in, c23Diff(e.outside, now)),
+				vfRec{"in": in, "diff": c23Diff(e.outside, now)})
+			e.outside = now
 		}
 	})
 	nlive := c23Live(t, e, live)
@@ -469,7 +544,7 @@ func c23Live(t *testing.T, e *c23Env, vecs []c23Vec) int {
 			break
 		}
 		c0 := vecs[0].Cases[ci]
-		h := e.handler(&c0, "os", false)
+		h := e.handler(&c0, "os", "off")
 		ln := fasthttputil.NewInmemoryListener()
 		s := &Server{Handler: h, Logger: c23NullLogger{}}
 		done := make(chan struct{})
